@@ -121,6 +121,27 @@ def check(inp):
         if not np.allclose(M, ph, atol=1e-8):
             bad("get_time_with_phase", "mean-anomaly-equals-phase-after-columns-were-replaced[call-history]", phase=ph, got=M)
             break
+    # unpack takes the column order from the units mapping it is handed - whatever kind of mapping that is, and whatever the order
+    order = ["e", "omega", "M0", "s", "P", "v0", "K"]
+    packed2, units2 = s.pack(names=order, nonlinear_only=False)
+    for kind, mapping in (("OrderedDict", units2), ("dict", {k: units2[k] for k in order}), ("from-strings", {k: u.Unit(str(units2[k])) for k in order})):
+        back2 = JokerSamples.unpack(packed2, mapping, t_ref=tref, poly_trend=2, n_offsets=0)
+        for k in order:
+            if not np.allclose(back2[k].to_value(s[k].unit), s[k].value, rtol=1e-12, atol=0):
+                bad("unpack", f"column-order-taken-from-the-units-mapping[{kind},non-canonical-order]", column=k)
+                break
+    # median_period with repeated periods (each nonlinear row repeated, as with several linear draws per sample): still ONE member row
+    rep = JokerSamples(t_ref=tref, poly_trend=2, n_offsets=0)
+    for k in s.par_names:
+        rep[k] = np.repeat(s[k].value, 2) * s[k].unit
+    rep["K"] = (np.repeat(s["K"].value, 2) + np.arange(2 * n) * 0.01) * s["K"].unit
+    mpr = rep.median_period()
+    if len(mpr) != 1:
+        bad("median_period", "is-a-single-member-row[repeated-periods]", rows=len(mpr))
+    else:
+        rws = [tuple(float(rep[k].value[i]) for k in rep.par_names) for i in range(2 * n)]
+        if tuple(float(np.atleast_1d(mpr[k].value)[0]) for k in rep.par_names) not in rws:
+            bad("median_period", "is-a-member-row[repeated-periods]")
     # indexing / copy / reductions keep units and metadata
     def meta_ok(x):
         return x.t_ref == tref and x.poly_trend == 2 and x.n_offsets == 0 and all(x[k].unit == s[k].unit for k in s.par_names)
